@@ -19,7 +19,7 @@ RULE = (
     "features with seqid/strand/type mixtures in grouped or arbitrary order, shipped and reflexive custom criteria, the same "
     "objects merged twice under the same and other criteria, outputs merged again. (db) generated databases for merge_all "
     "(both exclude_components) and children_bp, optionally followed by a merge() generator whose merged outputs are written back "
-    "with update() while it is being consumed, and a later merge() whose ids must not be stored yet."
+    "with update() while it is being consumed, a later merge() whose ids must not be stored yet, and two more merge() generators consumed in turns and abandoned after up to 3 merged outputs followed by a complete pass: no id is handed out twice on one handle."
 )
 ASSUMPTIONS = [
     "merge criteria are reflexive (criterion(f, f, ...) is true), as every shipped criterion is",
